@@ -1,8 +1,10 @@
 import Driver.Codec
 import UgoVerif.Spec.Json
+import UgoVerif.Spec.JsonDepth
 import UgoVerif.Model.JsonEnc
 namespace Driver
 open UgoVerif UgoVerif.Go UgoVerif.Model.JsonEnc UgoVerif.Model.JsonScan
+open UgoVerif.Gen.JsonTables (maxNestingDepth)
 
 /-- value syntax of the `json` stream (superset of `parseVal`) -/
 partial def parseJV (cs : List Char) : Option (JV × List Char) :=
@@ -115,10 +117,11 @@ def handleJson (args : List String) : String :=
   | ["valid", h] =>
     match bytesOfHex h.toList with
     | some bs => showValid (valid bs) ++ (if Spec.Json.isJson bs then " spec=1" else " spec=0")
+        ++ (if Spec.Json.isJsonD maxNestingDepth bs then " specd=1" else " specd=0")
     | none => "bad-op"
   | ["validonly", h] =>
     match bytesOfHex h.toList with
-    | some bs => showValid (valid bs)
+    | some bs => showValid (valid bs) ++ (if Spec.Json.isJsonD maxNestingDepth bs then " specd=1" else " specd=0")
     | none => "bad-op"
   | ["compact", e, h] =>
     match bytesOfHex h.toList with
